@@ -1,6 +1,166 @@
-use serde_json::Value;
+//! Analysis / transformation / memory commands.
+use crate::cmds::{arch_for, err_json};
+use crate::{emit, ilread};
+use falcon::analysis;
+use falcon::il;
+use serde_json::{json, Value};
+
 pub type R<T> = Result<T, String>;
 
-pub fn dispatch(cmd: &str, _req: &Value) -> R<Value> {
-    Err(format!("unknown cmd {}", cmd))
+pub fn loc_json(l: &il::ProgramLocation) -> Value {
+    match l.function_location() {
+        il::FunctionLocation::Instruction(b, i) => json!(["ins", b, i]),
+        il::FunctionLocation::Edge(h, t) => json!(["edge", h, t]),
+        il::FunctionLocation::EmptyBlock(b) => json!(["empty", b]),
+    }
+}
+
+fn ref_loc_json(l: &il::RefProgramLocation) -> Value {
+    let pl: il::ProgramLocation = l.clone().into();
+    loc_json(&pl)
+}
+
+fn function_of(req: &Value) -> R<il::Function> {
+    ilread::function(&req["function"])
+}
+
+fn locset(ls: &analysis::LocationSet) -> Value {
+    let mut v: Vec<Value> = ls.locations().iter().map(loc_json).collect();
+    v.sort_by_key(|x| x.to_string());
+    json!(v)
+}
+
+fn ssa(req: &Value) -> R<Value> {
+    let f = function_of(req)?;
+    Ok(match falcon::transformation::ssa_transformation(&f) {
+        Ok(g) => json!({"ok": true, "function": emit::function(&g)}),
+        Err(e) => err_json(&e),
+    })
+}
+
+fn dce(req: &Value) -> R<Value> {
+    let f = function_of(req)?;
+    Ok(match analysis::dead_code_elimination(&f) {
+        Ok(g) => json!({"ok": true, "function": emit::function(&g)}),
+        Err(e) => err_json(&e),
+    })
+}
+
+fn table<T, F: Fn(&T) -> Value>(
+    m: &std::collections::HashMap<il::ProgramLocation, T>,
+    f: F,
+) -> Value {
+    let mut rows: Vec<(String, Value)> = m
+        .iter()
+        .map(|(k, v)| {
+            let kj = loc_json(k);
+            (kj.to_string(), json!([kj, f(v)]))
+        })
+        .collect();
+    rows.sort_by(|a, b| a.0.cmp(&b.0));
+    json!(rows.into_iter().map(|x| x.1).collect::<Vec<_>>())
+}
+
+fn rd(req: &Value) -> R<Value> {
+    let f = function_of(req)?;
+    Ok(match analysis::reaching_definitions(&f) {
+        Ok(m) => json!({"ok": true, "table": table(&m, locset)}),
+        Err(e) => err_json(&e),
+    })
+}
+
+fn usedef(req: &Value) -> R<Value> {
+    let f = function_of(req)?;
+    Ok(match analysis::use_def(&f) {
+        Ok(m) => json!({"ok": true, "table": table(&m, locset)}),
+        Err(e) => err_json(&e),
+    })
+}
+
+fn defuse(req: &Value) -> R<Value> {
+    let f = function_of(req)?;
+    Ok(match analysis::def_use(&f) {
+        Ok(m) => json!({"ok": true, "table": table(&m, locset)}),
+        Err(e) => err_json(&e),
+    })
+}
+
+/// constants: per location, for every scalar named in "scalars" the reported constant (or null),
+/// plus Constants::eval on each probe expression.
+fn constants(req: &Value) -> R<Value> {
+    let f = function_of(req)?;
+    let mut scalars = Vec::new();
+    if let Some(a) = req["scalars"].as_array() {
+        for s in a {
+            scalars.push(ilread::scalar(s)?);
+        }
+    }
+    let mut probes = Vec::new();
+    if let Some(a) = req["probes"].as_array() {
+        for e in a {
+            probes.push(ilread::expr(e)?);
+        }
+    }
+    Ok(match analysis::constants::constants(&f) {
+        Ok(m) => json!({"ok": true, "table": table(&m, |c| {
+            let sc: Vec<Value> = scalars.iter().map(|s| match c.scalar(s) {
+                Some(k) => json!([emit::scalar(s), emit::constant(k)]),
+                None => json!([emit::scalar(s), null]),
+            }).collect();
+            let pr: Vec<Value> = probes.iter().map(|e| match c.eval(e) {
+                Some(k) => emit::constant(&k),
+                None => Value::Null,
+            }).collect();
+            json!({"scalars": sc, "probes": pr})
+        })}),
+        Err(e) => err_json(&e),
+    })
+}
+
+fn spoffsets(req: &Value) -> R<Value> {
+    let f = function_of(req)?;
+    let a = arch_for(req["arch"].as_str().ok_or("arch")?)?;
+    Ok(
+        match analysis::stack_pointer_offsets::stack_pointer_offsets(&f, a.as_ref()) {
+            Ok(m) => json!({"ok": true, "sp": emit::scalar(&a.stack_pointer()), "table": table(&m, |v| match v {
+                analysis::stack_pointer_offsets::StackPointerOffset::Top => json!("top"),
+                analysis::stack_pointer_offsets::StackPointerOffset::Bottom => json!("bottom"),
+                analysis::stack_pointer_offsets::StackPointerOffset::Value(i) => json!(*i as i64),
+            })}),
+            Err(e) => err_json(&e),
+        },
+    )
+}
+
+/// locations: forward/backward relation and enumeration as falcon reports them.
+fn locations(req: &Value) -> R<Value> {
+    let f = function_of(req)?;
+    let mut rows = Vec::new();
+    for fl in f.locations() {
+        let pl = il::RefProgramLocation::new(&f, fl);
+        let fw = match pl.forward() {
+            Ok(v) => json!(v.iter().map(ref_loc_json).collect::<Vec<_>>()),
+            Err(e) => json!({"err": e.to_string()}),
+        };
+        let bw = match pl.backward() {
+            Ok(v) => json!(v.iter().map(ref_loc_json).collect::<Vec<_>>()),
+            Err(e) => json!({"err": e.to_string()}),
+        };
+        rows.push(json!({"loc": ref_loc_json(&pl), "forward": fw, "backward": bw}));
+    }
+    Ok(json!({"ok": true, "locations": rows}))
+}
+
+pub fn dispatch(cmd: &str, req: &Value) -> R<Value> {
+    match cmd {
+        "ssa" => ssa(req),
+        "dce" => dce(req),
+        "rd" => rd(req),
+        "usedef" => usedef(req),
+        "defuse" => defuse(req),
+        "constants" => constants(req),
+        "spoffsets" => spoffsets(req),
+        "locations" => locations(req),
+        _ => crate::cmds3::dispatch(cmd, req),
+    }
 }
